@@ -86,9 +86,28 @@ def cases(tier, seed):
         for o in ets_opts:
             yield {"kind": "ets", "opts": o, "n": int(rng.integers(16, 50)), "off": int(rng.choice([0, 11, 500])), "H": int(rng.integers(1, 9)),
                    "gapped": bool(rng.random() < 0.5), "idx": "range", "dseed": int(rng.integers(0, 2 ** 31))}
+        for j, (ad, o) in enumerate(SM_OPTION_SETS):
+            yield {"kind": "sm-options", "adapter": ad, "opts": o, "n": int(rng.integers(24, 50)), "off": int(rng.choice([0, 11])), "dseed": int(rng.integers(0, 2 ** 31))}
         for o in theta_opts:
             yield {"kind": "theta", "opts": o, "n": int(rng.integers(16, 50)), "off": int(rng.choice([0, 11, 500])), "H": int(rng.integers(1, 9)),
                    "gapped": bool(rng.random() < 0.5), "idx": "range" if rep % 2 else "int", "dseed": int(rng.integers(0, 2 ** 31))}
+
+
+SM_OPTION_SETS = [
+    # (adapter, constructor options incl. non-default initialisation / estimation settings)
+    ("ets", {"auto": False, "initialization_method": "heuristic"}),
+    ("ets", {"auto": False, "trend": "add", "initialization_method": "heuristic", "maxiter": 50}),
+    ("ets", {"auto": True, "initialization_method": "heuristic"}),
+    ("ets", {"auto": True, "sp": 4, "initialization_method": "heuristic", "maxiter": 60, "additive_only": True}),
+    ("ets", {"auto": True, "information_criterion": "bic", "allow_multiplicative_trend": True, "restrict": False}),
+    ("ets", {"auto": False, "error": "mul", "trend": "add", "damped_trend": True, "initialization_method": "known", "initial_level": 60.0, "initial_trend": 0.5}),
+    ("ets", {"auto": True, "initialization_method": "known", "initial_level": 60.0, "initial_trend": 0.5, "missing": "drop"}),
+    ("es", {"trend": "add", "initialization_method": "heuristic"}),
+    ("es", {"trend": "add", "seasonal": "add", "sp": 4, "initialization_method": "legacy-heuristic"}),
+    ("es", {"trend": "add", "damped_trend": True, "use_boxcox": True}),
+    ("es", {"initialization_method": "known", "initial_level": 55.0}),
+    ("es", {"trend": "mul", "initialization_method": "known", "initial_level": 55.0, "initial_trend": 1.01}),
+]
 
 
 def _index(n, off, kind):
@@ -137,7 +156,91 @@ def run_case(case, ctx):
         return _run_naive(case, ctx)
     if kind == "poly":
         return _run_poly(case, ctx)
+    if kind == "sm-options":
+        return _run_sm_options(case, ctx)
     return _run_sm(case, ctx)
+
+
+def _run_sm_options(case, ctx):
+    """the wrapped statsmodels model is built and fitted with the adapter's options: hook on the model class the adapter module uses,
+    every construction / fit call is recorded and compared with the constructor arguments of the forecaster"""
+    import warnings
+    import sktime.forecasting.ets as ETS
+    import sktime.forecasting.exp_smoothing as ES
+    mod, attr = (ETS, "_ETSModel") if case["adapter"] == "ets" else (ES, "_ExponentialSmoothing")
+    Model = getattr(mod, attr)
+    calls = []
+
+    class Recording(Model):
+        def __init__(self, *a, **k):
+            calls.append(("init", dict(k)))
+            super().__init__(*a, **k)
+
+        def fit(self, *a, **k):
+            calls.append(("fit", dict(k)))
+            return super().fit(*a, **k)
+    o = dict(case["opts"])
+    y = _series(dict(case, opts=o, H=3, gapped=False, idx="range"))
+    f = (ETS.AutoETS if case["adapter"] == "ets" else ES.ExponentialSmoothing)(**o)
+    setattr(mod, attr, Recording)
+    try:
+        with warnings.catch_warnings():
+            warnings.simplefilter("ignore")
+            try:
+                f.fit(y.copy())
+            except Exception as e:  # noqa
+                ctx.tag("sm-options:fit-raised:" + type(e).__name__)
+    finally:
+        setattr(mod, attr, Model)
+    inits = [k for op, k in calls if op == "init"]
+    fits = [k for op, k in calls if op == "fit"]
+    if not ctx.check("statsmodels", len(inits) >= 1, "statsmodels:%s:wrapped-model-never-built" % case["adapter"], "the adapter did not build the wrapped model"):
+        return
+    P = f.get_params()
+    rename = {"sp": "seasonal_periods"}
+    searched = {"error", "trend", "damped_trend", "seasonal"} if P.get("auto") else set()
+    model_opts = ["error", "trend", "damped_trend", "seasonal", "sp", "initialization_method", "initial_level", "initial_trend", "initial_seasonal", "bounds", "dates", "freq",
+                  "missing", "use_boxcox"]
+    fit_opts = ["start_params", "maxiter", "full_output", "disp", "callback", "return_params"]
+    for k in inits:
+        for name in model_opts:
+            if name in P and name not in searched:
+                kk = rename.get(name, name)
+                ctx.check("statsmodels", kk in k and (k[kk] is P[name] or k[kk] == P[name]), "statsmodels:%s:option-not-passed-to-wrapped-model:%s" % (case["adapter"], name),
+                          "the wrapped statsmodels model was not built with the forecaster's option", option=name, given=repr(P[name])[:40], passed=repr(k.get(kk, "<absent>"))[:40],
+                          auto=bool(P.get("auto")))
+    if case["adapter"] == "ets":
+        for k in fits:
+            for name in fit_opts:
+                ctx.check("statsmodels", name in k and (k[name] is P[name] or k[name] == P[name]), "statsmodels:ets:fit-option-not-passed-to-wrapped-model:%s" % name,
+                          "the wrapped statsmodels model was not fitted with the forecaster's estimation option", option=name, given=repr(P[name])[:40], passed=repr(k.get(name, "<absent>"))[:40])
+    if P.get("auto"):
+        # the search visits exactly the documented candidate set, every candidate once
+        cands = [(k.get("error"), k.get("trend"), k.get("seasonal"), bool(k.get("damped_trend"))) for k in inits]
+        exp = []
+        for e in ("add", "mul"):
+            for t in (("add", "mul", None) if P["allow_multiplicative_trend"] else ("add", None)):
+                for sn in (("add", "mul", None) if (P["sp"] or 0) > 1 else (None,)):
+                    for d in (True, False):
+                        if t is None and d:
+                            continue
+                        if P["restrict"]:
+                            if e == "add" and (t == "mul" or sn == "mul"):
+                                continue
+                            if e == "mul" and t == "mul" and sn == "add":
+                                continue
+                            if P["additive_only"] and "mul" in (e, t, sn):
+                                continue
+                        exp.append((e, t, sn, d))
+        ctx.check("statsmodels", sorted(map(repr, cands)) == sorted(map(repr, exp)), "statsmodels:ets:auto-search-candidate-set", "the automatic search does not visit exactly the documented candidates",
+                  visited=len(cands), expected=len(exp))
+        chosen = getattr(f, "_fitted_forecaster", None)
+        if chosen is not None and fits:
+            ic = P["information_criterion"]
+            ctx.tag("sm-options:auto")
+    ctx.event(kind="sm-options", adapter=case["adapter"], opts={k: repr(v)[:20] for k, v in o.items()}, models_built=len(inits), fits=len(fits))
+    ctx.tag("sm-options:" + case["adapter"])
+    ctx.nontrivial = True
 
 
 def _run_naive(case, ctx):
